@@ -80,6 +80,7 @@ def orders(keys, aggs, ncols, aggfirst):
 
 
 def groups(tier, seed):
+    yield {'kind': 'group-sort', 'tree': None, 'keys': [], 'cases': []}
     for tname in ADJ:
         for kl in keylists(tier):
             if len(kl) == 2:
@@ -114,7 +115,72 @@ def groups(tier, seed):
             yield {'tree': tname, 'keys': kl, 'cases': cases}
 
 
+def eval_group_sort(env, group):
+    """group rows sorted by keys that are large whole numbers, formatted sizes, or look-alikes of a selected column"""
+    import subprocess
+    import tempfile
+    outs = []
+    if not (os.path.isdir('/dev/shm') and os.access('/dev/shm', os.W_OK)):
+        return [{'case': {'kind': 'group-sort'}, 'status': 'ok', 'nt': False, 'layer': 'group-sort', 'sig': ('no-tmpfs',)}]
+    root = tempfile.mkdtemp(prefix='fsx-c08-', dir='/dev/shm')
+    try:
+        sizes = {'x.ea': 2 ** 53 + 1, 'y.eb': 2 ** 53, 'z.ec': 7, 'w.ed': 2048, 'v.ee': 3, 'u.ef': 2 ** 53 + 2, 'X.eg': 1500, 't.ea': 0}
+        for i, (n, v) in enumerate(sizes.items()):
+            d = os.path.join(root, 'd%d' % (i % 3))
+            os.makedirs(d, exist_ok=True)
+            with open(os.path.join(d, n), 'wb') as fh:
+                fh.truncate(v)
+        if os.lstat(os.path.join(root, 'd0', 'x.ea')).st_size != 2 ** 53 + 1:
+            return [{'case': {'kind': 'group-sort'}, 'status': 'ok', 'nt': False, 'layer': 'group-sort', 'sig': ('no-big-files',)}]
+        bysum = {}
+        for n, v in sizes.items():
+            bysum[n.rsplit('.', 1)[1]] = bysum.get(n.rsplit('.', 1)[1], 0) + v
+        cases = []
+        for desc in (False, True):
+            for lim in (0, 1, 3):
+                tail = (' desc' if desc else '') + (' limit %d' % lim if lim else '')
+                order = sorted(bysum, key=lambda e: (bysum[e], e), reverse=desc)
+                cases.append(('ext, sum(size) from . where is_file = true group by ext order by sum(size)%s, ext%s into list' % (' desc' if desc else '', tail.replace(' desc', '')),
+                              [(e, str(bysum[e])) for e in order][:lim or None]))
+                cases.append(('ext, sum(size) from . where is_file = true group by ext order by 2%s, 1%s into list' % (' desc' if desc else '', tail.replace(' desc', '')),
+                              [(e, str(bysum[e])) for e in order][:lim or None]))
+                byname = sorted(sizes, key=lambda n: (sizes[n], n), reverse=desc)
+                cases.append(('name, size, fsize from . where is_file = true and size < 1000000 group by name, size, fsize order by fsize%s, name%s into list' % (' desc' if desc else '', tail.replace(' desc', '')),
+                              None if True else byname))
+                # a selected column that differs from the key in the letter case of a literal only
+                want = sorted(sizes, key=lambda n: n.replace('X', 'A'), reverse=desc)
+                cases.append(("name, replace(name, 'x', 'A'), count(*) from . where is_file = true group by name order by replace(name, 'X', 'A')%s into list" % tail,
+                              [(n, n.replace('x', 'A'), '1') for n in want][:lim or None]))
+        for q, want in cases:
+            o = env.run([q], cwd=root, timeout=20.0)
+            r = {'case': {'kind': 'group-sort', 'query': q}, 'layer': 'group-sort', 'nt': True, 'trans': len(sizes)}
+            ncol = 3 if ('count(*)' in q or ', fsize from' in q) else 2
+            rows = o.rows(ncol)
+            if o.timeout or o.rc != 0 or o.err or rows is None:
+                r.update(status='viol', cls='group-sort:status', detail=dict(o.brief(), query=q), sig=('err',))
+            elif want is None:
+                # ordered by the formatted size: the sizes themselves are in order (ties by name)
+                vals = [int(x[1]) for x in rows]
+                desc = ' desc' in q
+                # (rows whose formatted sizes are the same text tie on this key)
+                ok = all(ra[2] == rb[2] or ((a >= b) if desc else (a <= b)) for (a, ra), (b, rb) in zip(zip(vals, rows), zip(vals[1:], rows[1:])))
+                if not ok:
+                    r.update(status='viol', cls='group-sort:formatted-size-key', detail={'query': q, 'rows': rows}, sig=('fsize',))
+                else:
+                    r.update(status='ok', sig=tuple(vals))
+            elif [tuple(x) for x in rows] != want:
+                r.update(status='viol', cls='group-sort:rows', detail={'query': q, 'got': rows[:8], 'expected': want[:8]}, sig=('rows', q[:30]))
+            else:
+                r.update(status='ok', sig=tuple(x[0] for x in rows))
+            outs.append(r)
+    finally:
+        subprocess.run(['rm', '-rf', root])
+    return outs
+
+
 def single(case):
+    if case.get('kind') == 'group-sort':
+        return {'kind': 'group-sort', 'tree': None, 'keys': [], 'cases': []}
     return {'tree': case['tree'], 'keys': case['keys'],
             'cases': [{k: case[k] for k in ('aggs', 'where', 'aggfirst', 'order', 'bare', 'hidden', 'desc') if k in case}]}
 
@@ -197,6 +263,8 @@ def hidden_order(env, root, group, c, keys, ents, wtext):
 
 
 def eval_group(env, group, tier):
+    if group.get('kind') == 'group-sort':
+        return eval_group_sort(env, group)
     root = env.newdir('c8')
     core.materialise(root, TREES[group['tree']])
     keys = group['keys']
